@@ -10,13 +10,16 @@ import DL.Model.CF
 * every expression that is not a bare identifier or `this` (in particular every call) may throw; `throw` always throws;
 * nested function bodies are not executed by evaluating the expression that creates them; every function body is an
   entry point of its own (`Stmt.entries`);
+* statements nested directly in an expression (`with` bodies, class static blocks: `Kid.stmt`, `Kid.block`) are executed
+  where the expression is evaluated (`Kids.compl`, `Kids.flowReach`): an abrupt completion of one ends the evaluation of
+  the expression and is a completion of the enclosing statement.  Exceptions, kept coarse on purpose: case tests, catch
+  parameters and function parameters are only looked at through `Kids.mayThrow`;
 * `try/catch/finally` per ECMA-262 §14.15: the handler runs iff the block may throw, the finalizer runs after any
   completion and overrides it when it completes abruptly.
 
-Both are structural, executable computations.  `Model/CFExec.lean` states the same semantics as a plain inductive
-big-step relation (`Exec`, `Reaches`), and `Props/C10Ref.lean` proves the closed forms exact for it
-(`compl_iff_exec` unconditionally, `reach_iff_reaches` on the fragment `inF`): what a reader has to audit is the
-inductive relation; the closed forms are what the search oracles evaluate.
+Both are structural, executable computations and are *the definition* of the reference semantics used by the theorems
+and by the search oracles.  `DL.Model.CFExec` gives an independent inductive big-step semantics (`Exec`, `Reaches`) and
+`DL.Props.C10Ref` proves that the closed forms are exactly it (`compl_iff_exec`, `reach_iff_reaches`).
 -/
 namespace DL.CF
 
@@ -52,21 +55,24 @@ def Kid.mayThrow : Kid → Bool
   | .expr .other _ => true
   | .expr _ kids => kids.mayThrow
   | .fnScope _ _ => false
-  | .block _ _ => false        -- static blocks / `with` bodies: outside the fragment (see `InFragment`)
+  | .block _ _ => false        -- static blocks / `with` bodies: their throws are accounted for by `Kids.compl`, not here
   | .stmt _ => false
 end
 
-def evalCompl (kids : Kids) : Compl := { n := true, t := kids.mayThrow }
-
-/-- evaluating a loop test: a test that swc reports as `Known(true)` is a constant-like, side-effect free expression
-(literal, `!0`, `[]`, …) and cannot throw -/
-def testCompl (testTrue : Bool) (test : Kids) : Compl := if testTrue then { n := true } else evalCompl test
+/-- what an expression node itself does after its sub-expressions: anything that is not a bare identifier or `this` may throw -/
+def exprOwn : EKind → Compl
+  | .other => { n := true, t := true }
+  | _ => { n := true }
 
 /-- completion of a loop given the completion `b` of one body execution and the labels `ls` that label this loop:
 `break` exits normally; `continue` (unlabelled or to one of `ls`) and normal body completion go round again;
 `exitByTest` = the loop can also end because its test becomes false -/
 def loopCompl (ls : List Id) (exitByTest : Bool) (b : Compl) : Compl :=
   { n := exitByTest || b.b, r := b.r, t := b.t, bl := b.bl, cl := b.cl.filter (fun l => !ls.contains l) }
+
+/-- …for reaching the test of a `do-while` / the update of a `for` (reachability carries no label context): any
+`continue`, labelled or not, is taken to go round -/
+def goesRoundAny (b : Compl) : Bool := b.n || b.c || !b.cl.isEmpty
 
 /-- does one body execution lead to another evaluation of the test / update (normal, `continue`, `continue L`) -/
 def goesRound (ls : List Id) (b : Compl) : Bool := b.n || b.c || b.cl.any (fun l => ls.contains l)
@@ -79,32 +85,48 @@ def tryCatchCompl (b : Compl) (hasHandler : Bool) (h : Compl) : Compl :=
 def finallyCompl (r1 : Compl) (hasFin : Bool) (f : Compl) : Compl :=
   if hasFin then Compl.guard r1.any ((Compl.guard f.n r1).union f.abrupt) else r1
 
+/-- evaluating a loop test with completions `c`: a test that swc reports as `Known(true)` is a constant-like, side-effect
+free expression (literal, `!0`, `[]`, …) and cannot throw -/
+def testComplOf (testTrue : Bool) (c : Compl) : Compl := if testTrue then { n := true } else c
+
 mutual
+/-- evaluating an expression tree, in order: sub-expressions first; function scopes are values (their bodies are not
+executed); statements nested directly in it (`with` bodies, class static blocks) execute in the enclosing flow, and an
+abrupt completion of theirs ends the evaluation -/
+def Kid.compl : Kid → Compl
+  | .expr e ks => ks.compl.seq (exprOwn e)
+  | .fnScope _ _ => .normal
+  | .block _ body => body.compl
+  | .stmt s => s.compl []
+def Kids.compl : Kids → Compl
+  | .nil => .normal
+  | .cons k r => k.compl.seq r.compl
 /-- `ls` = the labels that immediately label this statement -/
 def Stmt.compl (ls : List Id) : Stmt → Compl
-  | .simple _ _ kids => evalCompl kids
+  | .simple _ _ kids => kids.compl
   | .block _ body => body.compl
-  | .ifS _ test c none => (evalCompl test).seq ((c.compl []).union .normal)
-  | .ifS _ test c (some a) => (evalCompl test).seq ((c.compl []).union (a.compl []))
+  | .ifS _ test c none => (test.compl).seq ((c.compl []).union .normal)
+  | .ifS _ test c (some a) => (test.compl).seq ((c.compl []).union (a.compl []))
   | .whileS _ test tt body =>
     let b := body.compl []
-    let tc := testCompl tt test
-    tc.seq (loopCompl ls (!tt) (b.union (Compl.guard (goesRound ls b) tc.abrupt)))
+    let tc := testComplOf tt test.compl
+    tc.seq ((loopCompl ls (!tt) b).union (Compl.guard (goesRound ls b) tc.abrupt))
   | .doWhileS _ body test tt =>
     let b := body.compl []
-    let viaTest : Compl := Compl.guard (goesRound ls b) (testCompl tt test)
-    loopCompl ls (viaTest.n && !tt) (b.union viaTest.abrupt)
+    let viaTest : Compl := Compl.guard (goesRound ls b) (testComplOf tt test.compl)
+    (loopCompl ls (viaTest.n && !tt) b).union viaTest.abrupt
   | .forS _ init update test hasTest tt body =>
     let b := body.compl []
-    let tc := testCompl tt test
-    let again : Compl := Compl.guard (goesRound ls b) ((evalCompl update).seq tc).abrupt
-    (evalCompl init).seq (tc.seq (loopCompl ls (hasTest && !tt) (b.union again)))
-  | .forInOf _ left right body => ((evalCompl right).seq (evalCompl left)).seq (loopCompl ls true ((body.compl []).union (evalCompl left).abrupt))
+    let tc := testComplOf tt test.compl
+    let again : Compl := Compl.guard (goesRound ls b) ((update.compl).seq tc).abrupt
+    (init.compl).seq (tc.seq ((loopCompl ls (hasTest && !tt) b).union again))
+  | .forInOf _ left right body =>
+    ((right.compl).seq (left.compl)).seq ((loopCompl ls true (body.compl [])).union (left.compl).abrupt)
   | .switchS _ disc cases =>
     let inner := cases.compl
-    let c := ((evalCompl disc).seq { n := true, t := cases.testsMayThrow }).seq (inner.1.union (Compl.guard (!inner.2) .normal))
-    -- an unlabelled `break` leaves the switch normally
-    { c with n := c.n || c.b, b := false }
+    let c := inner.1.union (Compl.guard (!inner.2) .normal)
+    -- an unlabelled `break` out of the cases leaves the switch normally
+    ((disc.compl).seq { n := true, t := cases.testsMayThrow }).seq { c with n := c.n || c.b, b := false }
   | .tryS _ _ block hasHandler _ catchKids hasFin _ fin =>
     finallyCompl (tryCatchCompl block.compl hasHandler catchKids.catchCompl) hasFin fin.compl
   | .labeled _ l body =>
@@ -114,8 +136,8 @@ def Stmt.compl (ls : List Id) : Stmt → Compl
   | .brk _ (some l) => { bl := [l] }
   | .cont _ none => { c := true }
   | .cont _ (some l) => { cl := [l] }
-  | .ret _ arg => (evalCompl arg).seq { r := true }
-  | .throw _ arg => (evalCompl arg).seq { t := true }
+  | .ret _ arg => (arg.compl).seq { r := true }
+  | .throw _ arg => (arg.compl).seq { t := true }
 def Stmts.compl : Stmts → Compl
   | .nil => .normal
   | .cons s r => (s.compl []).seq r.compl
@@ -140,19 +162,27 @@ def Kids.catchCompl : Kids → Compl
   | .cons k r => (Compl.seq { n := true, t := k.mayThrow } r.catchCompl)
 end
 
+/-- evaluating expressions (kept as a name for `Kids.compl`) -/
+def evalCompl (kids : Kids) : Compl := kids.compl
+def testCompl (testTrue : Bool) (test : Kids) : Compl := testComplOf testTrue test.compl
+
 /-! ## reachability (position-keyed, like the analyzer's metadata) -/
 mutual
 /-- given that `s` is entered: is a statement starting at `p` reached -/
 def Stmt.reach : Stmt → Nat → Bool
   | .simple q _ kids, p => p == q || kids.flowReach p
   | .block q body, p => p == q || body.reach p
-  | .ifS q test c none, p => p == q || ((evalCompl test).n && c.reach p)
-  | .ifS q test c (some a), p => p == q || ((evalCompl test).n && (c.reach p || a.reach p))
-  | .whileS q _ _ body, p => p == q || body.reach p
-  | .doWhileS q body _ _, p => p == q || body.reach p
-  | .forS q _ _ _ _ _ body, p => p == q || body.reach p
-  | .forInOf q _ _ body, p => p == q || body.reach p
-  | .switchS q _ cases, p => p == q || cases.reach p
+  | .ifS q test c none, p => p == q || test.flowReach p || ((test.compl).n && c.reach p)
+  | .ifS q test c (some a), p => p == q || test.flowReach p || ((test.compl).n && (c.reach p || a.reach p))
+  | .whileS q test tt body, p => p == q || test.flowReach p || ((testComplOf tt test.compl).n && body.reach p)
+  | .doWhileS q body test _, p => p == q || body.reach p || (goesRoundAny (body.compl []) && test.flowReach p)
+  | .forS q init update test _ tt body, p =>
+    p == q || init.flowReach p ||
+    ((init.compl).n && (test.flowReach p || ((testComplOf tt test.compl).n &&
+      (body.reach p || (goesRoundAny (body.compl []) && update.flowReach p)))))
+  | .forInOf q left right body, p =>
+    p == q || right.flowReach p || ((right.compl).n && (left.flowReach p || ((left.compl).n && body.reach p)))
+  | .switchS q disc cases, p => p == q || disc.flowReach p || ((disc.compl).n && cases.reach p)
   | .tryS q _ block hasHandler _ catchKids hasFin _ fin, p =>
     p == q || block.reach p ||
     (hasHandler && block.compl.t && catchKids.catchReach p) ||
@@ -160,24 +190,24 @@ def Stmt.reach : Stmt → Nat → Bool
   | .labeled q _ body, p => p == q || body.reach p
   | .brk q _, p => p == q
   | .cont q _, p => p == q
-  | .ret q _, p => p == q
-  | .throw q _, p => p == q
+  | .ret q arg, p => p == q || arg.flowReach p
+  | .throw q arg, p => p == q || arg.flowReach p
 def Stmts.reach : Stmts → Nat → Bool
   | .nil, _ => false
   | .cons s r, p => s.reach p || ((s.compl []).n && r.reach p)
 /-- every case can be entered directly; later statements by sequencing and fall-through -/
 def Cases.reach : Cases → Nat → Bool
   | .nil, _ => false
-  | .cons q _ _ body r, p => p == q || body.reach p || r.reach p
+  | .cons q _ test body r, p => p == q || test.flowReach p || body.reach p || r.reach p
 def Kids.catchReach : Kids → Nat → Bool
   | .nil, _ => false
   | .cons (.block q body) _, p => p == q || body.reach p
   | .cons _ r, p => r.catchReach p
-/-- statements nested in kids that execute in the enclosing flow (class static blocks, `with` bodies);
-over-approximated: each is taken to be entered -/
+/-- statements nested in kids that execute in the enclosing flow (class static blocks, `with` bodies): in order, each
+entered when what comes before it in the expression tree can complete normally -/
 def Kids.flowReach : Kids → Nat → Bool
   | .nil, _ => false
-  | .cons k r, p => k.flowReach p || r.flowReach p
+  | .cons k r, p => k.flowReach p || (k.compl.n && r.flowReach p)
 def Kid.flowReach : Kid → Nat → Bool
   | .expr _ kids, p => kids.flowReach p
   | .fnScope _ _, _ => false
